@@ -1,6 +1,7 @@
 import Model.Access
 import Model.Types
 import Model.Inst
+import Model.ArgNames
 import Spec.Access
 import Generated.C07Access
 import Drivers.Common
@@ -20,6 +21,17 @@ import Drivers.Common
          item `o,<cell keys .>,<call keys .>`                → `v.v.v|n.n`  (start: every cell 1, every counter 0)
   bseq <H> <boundary> <val.val.…> <ty tokens…>               → `1.0.…|<slot>`   (Model.Types.storeRun, slot `-` = never stored)
   iseq <W> <class.class.…>                                   → `ok.missing.…|<live objects>`  (Model.Inst.newRun)
+  bind <H> <il|ef> <loop> <slot;slot;…>                      → `ok ran=1` | `rej:<label> ran=0` | `thr:<label> ran=0`
+         slot `<label>,<boundary>,<val|!|?>,<ty tokens separated by blanks>` in parameter order; `!` the argument
+         throws, `?` it is missing; loop = fn | ctor | method | funcValue (Generated.C07Access.bindLoops);
+         il: each argument is evaluated when it is bound, ef: all arguments are evaluated first (Model.Types.bindArgs)
+  nbind <H> <il|ef> <loop> <param;param;…> <arg;arg;…|->     → as `bind` (labels = parameter indices) | `unresolved:unknown|duplicate`
+         param `<name>,<boundary>,<default val|->,<ty tokens>`; arg in the order WRITTEN at the call: `p,<val|!>` positional,
+         `n<name>,<val|!>` named (Model.ArgNames.callNamed: resolveNamedArguments, then the binding loop)
+  sseq <H> <slot;slot;…>                                     → `ok|rej:<i> <slot>.<slot>…`  (Model.Types.storeSeq; slot `-` = not written)
+         slot `<boundary>,<val>,<ty tokens separated by blanks>`
+  eargs <H> <item;item;…>                                    → `ok|den:<i> n=<k>`  (Model.Access.evalArgs; items as for `seq`,
+         k = how many operands had an effect: calls that ran + cells that changed)
 
   H  = `name,ext|-,impl.impl|-;…`     fields of a request are separated by tabs
   W  = `c:name,ext|-,impl|-,abstract 0|1,concrete.m|-,abstr.m|-;…/i:name,ext.ext|-,meths|-;…`
@@ -154,14 +166,15 @@ def parseBoundary : String → Option Boundary
   | "staticStore" => some .staticStore | "fnParam" => some .fnParam | "methParam" => some .methParam
   | "staticParam" => some .staticParam | "ctorParam" => some .ctorParam | "fnReturn" => some .fnReturn
   | "methReturn" => some .methReturn | "closureParam" => some .closureParam
-  | "closureReturn" => some .closureReturn | "promotedParam" => some .promotedParam | _ => none
+  | "closureReturn" => some .closureReturn | "promotedParam" => some .promotedParam
+  | "variadicParam" => some .variadicParam | _ => none
 
 def showBoundary : Boundary → String
   | .propStore => "propStore" | .dynPropStore => "dynPropStore" | .idxStore => "idxStore"
   | .staticStore => "staticStore" | .fnParam => "fnParam" | .methParam => "methParam"
   | .staticParam => "staticParam" | .ctorParam => "ctorParam" | .fnReturn => "fnReturn"
   | .methReturn => "methReturn" | .closureParam => "closureParam" | .closureReturn => "closureReturn"
-  | .promotedParam => "promotedParam"
+  | .promotedParam => "promotedParam" | .variadicParam => "variadicParam"
 
 def bit (b : Bool) : String := if b then "1" else "0"
 
@@ -243,6 +256,86 @@ def showVal : ValKind → String
   | .int => "int" | .str => "str" | .arr => "arr" | .assoc => "assoc" | .null => "null" | .float => "float"
   | .bool => "bool" | .obj c => s!"o{c}"
 
+/-! several items in one construct (the position stream of the harness) -/
+
+def parseSlot (H : Hier) (s : String) : Option (Nat × Slot × Bool) :=
+  match s.splitOn "," with
+  | [lab, b, v, ty] => do
+    let lab ← lab.toNat?
+    let b ← parseBoundary b
+    let toks := (ty.splitOn " ").filter (fun x => !x.isEmpty)
+    let (t, rest) ← parseTy (toks.length + 1) toks
+    if !rest.isEmpty then none
+    let a ← (if v == "!" then some Arg.throws else if v == "?" then some Arg.missing else (parseVal v).map Arg.val)
+    let stuck := match a with | .val x => stuckOn H t x | _ => false
+    some (lab, { k := Generated.C07Access.boundary b, t := t, a := a }, stuck)
+  | _ => none
+
+def loopShapeOf (name : String) : LoopShape :=
+  match Generated.C07Access.bindLoops.find? (fun p => p.1 == name) with
+  | some p => p.2
+  | none => .shapeChanged
+
+def showCall (labels : List Nat) (o : CallOut) : String :=
+  let lab (i : Nat) : String := match labels[i]? with | some l => toString l | none => "?"
+  match o with
+  | .ran => "ok ran=1"
+  | .rejected i => s!"rej:{lab i} ran=0"
+  | .raised i => s!"thr:{lab i} ran=0"
+  | .shapeChanged => "shapeChanged"
+
+def parseStoreSlot (H : Hier) (s : String) : Option ((BKind × Ty × ValKind) × Bool) :=
+  match s.splitOn "," with
+  | [b, v, ty] => do
+    let b ← parseBoundary b
+    let v ← parseVal v
+    let toks := (ty.splitOn " ").filter (fun x => !x.isEmpty)
+    let (t, rest) ← parseTy (toks.length + 1) toks
+    if !rest.isEmpty then none
+    some ((Generated.C07Access.boundary b, t, v), stuckOn H t v)
+  | _ => none
+
+/-! a call as written: positional and named arguments (Model.ArgNames) -/
+
+def parseParam (s : String) : Option Model.ArgNames.Param :=
+  match s.splitOn "," with
+  | [nm, b, d, ty] => do
+    let nm ← nm.toNat?
+    let b ← parseBoundary b
+    let toks := (ty.splitOn " ").filter (fun x => !x.isEmpty)
+    let (t, rest) ← parseTy (toks.length + 1) toks
+    if !rest.isEmpty then none
+    let d ← (if d == "-" then some none else (parseVal d).map some)
+    some { name := nm, k := Generated.C07Access.boundary b, t := t, dflt := d }
+  | _ => none
+
+def parseArgV (v : String) : Option Model.ArgNames.ArgV :=
+  if v == "!" then some .throws else (parseVal v).map .val
+
+def parseCallArg (s : String) : Option Model.ArgNames.CallArg :=
+  match s.splitOn "," with
+  | [w, v] => do
+    let a ← parseArgV v
+    if w == "p" then some (.pos a)
+    else if w.startsWith "n" then (w.drop 1).toNat?.map (fun n => .named n a)
+    else none
+  | _ => none
+
+def argVal : Model.ArgNames.CallArg → Option ValKind
+  | .pos (.val v) => some v
+  | .named _ (.val v) => some v
+  | _ => none
+
+def showNamedOut (n : Nat) : Model.ArgNames.Outcome → String
+  | .unresolved (.unknown _) => "unresolved:unknown"
+  | .unresolved (.duplicate _) => "unresolved:duplicate"
+  | .unresolved .crash => "unresolved:crash"
+  | .call o => showCall (List.range n) o
+
+/-- how many of the listed cells changed and how many of the listed counters moved -/
+def touched (σ₀ σ : Store) (keys : List Name) : Nat :=
+  (keys.filter (fun k => σ.cell k != σ₀.cell k)).length + (keys.map (fun k => σ.calls k - σ₀.calls k)).foldl (· + ·) 0
+
 def handle (line : String) : String :=
   match line.splitOn "\t" with
   | "acc" :: h :: rest =>
@@ -305,6 +398,54 @@ def handle (line : String) : String :=
     | some W, some ns =>
       let r := Model.Inst.newRun W [] ns
       ".".intercalate (r.1.map showInst) ++ "|" ++ dots r.2
+    | _, _ => "bad-op"
+  | ["bind", h, mode, loop, slots] =>
+    match parseHier h with
+    | none => "bad-op"
+    | some H =>
+      match ((slots.splitOn ";").filter (fun x => !x.isEmpty)).mapM (parseSlot H) with
+      | none => "bad-op"
+      | some l =>
+        if l.any (fun x => x.2.2) then "stuck"
+        else
+          let labels := l.map (fun x => x.1)
+          let sl := l.map (fun x => x.2.1)
+          let sh := loopShapeOf loop
+          let o := if mode == "ef" then bindEvalFirst sh (isATotal H) sl else bindArgs sh (isATotal H) sl
+          showCall labels o
+  | ["nbind", h, mode, loop, ps, as] =>
+    match parseHier h with
+    | none => "bad-op"
+    | some H =>
+      match ((ps.splitOn ";").filter (fun x => !x.isEmpty)).mapM parseParam,
+            ((as.splitOn ";").filter (fun x => !x.isEmpty && x != "-")).mapM parseCallArg with
+      | some params, some args =>
+        let vals := args.filterMap argVal ++ params.filterMap (·.dflt) ++ [ValKind.null]
+        if params.any (fun p => vals.any (fun v => stuckOn H p.t v)) then "stuck"
+        else if !(Generated.C07Access.namedFirst.any (fun p => p.1 == loop && p.2)) then "shapeChanged"
+        else showNamedOut params.length
+          (Model.ArgNames.callNamed (loopShapeOf loop) (mode == "ef") (isATotal H) params args)
+      | _, _ => "bad-op"
+  | ["sseq", h, slots] =>
+    match parseHier h with
+    | none => "bad-op"
+    | some H =>
+      match ((slots.splitOn ";").filter (fun x => !x.isEmpty)).mapM (parseStoreSlot H) with
+      | none => "bad-op"
+      | some l =>
+        if l.any (fun x => x.2) then "stuck"
+        else
+          let r := storeSeq (isATotal H) 0 (l.map (fun x => x.1))
+          (match r.1 with | none => "ok" | some i => s!"rej:{i}") ++ " " ++
+            ".".intercalate (r.2.map (fun o => match o with | none => "-" | some v => showVal v))
+  | ["eargs", h, items] =>
+    match parseHier h, (items.splitOn ";").mapM parseSeqItem with
+    | some H, some its =>
+      let steps := its.filterMap (fun it => match it with | .att st => some st | _ => none)
+      let σ₀ : Store := { cell := fun _ => 1, calls := fun _ => 0 }
+      let r := evalArgs Generated.C07Access.table H 0 σ₀ steps
+      let keys := (steps.map (fun st => match st.op with | .read k => k | .write k _ _ => k | .call k => k)).eraseDups
+      (match r.1 with | none => "ok" | some i => s!"den:{i}") ++ s!" n={touched σ₀ r.2 keys}"
     | _, _ => "bad-op"
   | ["tbl"] =>
     let arms := Path.all.flatMap (fun p => [Recv.this, Recv.other].map (fun r =>
